@@ -468,6 +468,14 @@ def _put_one_constant(
     if hasattr(ast, 'kind'):  # reset any 'u' kind strings
         ast.kind = None
 
+    if (isinstance(value, int)
+        and not isinstance(value, bool)
+        and (parent := self.parent)
+        and parent.a.__class__ is Attribute
+        and not self.pars().n
+    ):  # same veeery special case as for a node put, "3.__abs__()" -> "(3).__abs__()"
+        self._parenthesize_grouping()
+
     return self  # this breaks the rule of returning the child node since it is just a primitive
 
 
